@@ -45,6 +45,7 @@ type C07ConcCase struct {
 func genC07Conc(t *rapid.T) C07ConcCase {
 	c := C07ConcCase{Config: genConfig(t)}
 	c.Config.ShortReservation = false
+	c.Config.ReservationMs = rapid.SampledFrom([]int{0, 0, 100}).Draw(t, "conc-reservation")
 	c.WalletBlocks = rapid.IntRange(1, 4).Draw(t, "wallet-blocks")
 	np := rapid.IntRange(0, 3).Draw(t, "payments")
 	for i := 0; i < np; i++ {
@@ -99,7 +100,9 @@ type concReq struct {
 	ids       []scID
 	fundStart int64
 	fundEnd   int64
-	relStart  int64 // MaxInt64 while outstanding
+	wall0     time.Time // clock before the funding call: the reservation lasts at least until wall0 + duration
+	wall1     time.Time // clock after the funding call
+	relStart  int64     // MaxInt64 while outstanding
 }
 
 func (r *concReq) release(w *wallet.SingleAddressWallet) {
@@ -113,6 +116,9 @@ func (r *concReq) release(w *wallet.SingleAddressWallet) {
 func runC07Conc(c C07ConcCase, cs *kit.CaseStats) error {
 	cfg := c.Config
 	cfg.ShortReservation = false
+	if cfg.ReservationMs != 0 {
+		cfg.ReservationMs = 100
+	}
 	wd, err := newWorld(cfg, cs)
 	if err != nil {
 		return fmt.Errorf("INFRA: %w", err)
@@ -172,9 +178,9 @@ func runC07Conc(c C07ConcCase, cs *kit.CaseStats) error {
 		case 0:
 			a = oneH
 		case 1:
-			a = base.sumS.Div64(uint64(k)).Mul64(f).Div64(1000)
+			a = fraction(base.sumS.Div64(uint64(k)), f, 1000)
 		case 2:
-			a = base.sumS.Mul64(f).Div64(1000)
+			a = fraction(base.sumS, f, 1000)
 		case 3:
 			a = base.sumS
 		case 4:
@@ -223,9 +229,9 @@ func runC07Conc(c C07ConcCase, cs *kit.CaseStats) error {
 					if op.V2 {
 						r.kind = "v2"
 						txn := types.V2Transaction{SiacoinOutputs: []types.SiacoinOutput{{Address: wd.other, Value: amount}}}
-						r.fundStart = clock.Add(1)
+						r.fundStart, r.wall0 = clock.Add(1), time.Now()
 						_, _, err = wd.w.FundV2Transaction(&txn, amount, op.U)
-						r.fundEnd = clock.Add(1)
+						r.fundEnd, r.wall1 = clock.Add(1), time.Now()
 						r.v2 = []types.V2Transaction{txn}
 						for _, in := range txn.SiacoinInputs {
 							r.ids = append(r.ids, in.Parent.ID)
@@ -233,9 +239,9 @@ func runC07Conc(c C07ConcCase, cs *kit.CaseStats) error {
 					} else {
 						r.kind = "v1"
 						txn := types.Transaction{SiacoinOutputs: []types.SiacoinOutput{{Address: wd.other, Value: amount}}}
-						r.fundStart = clock.Add(1)
+						r.fundStart, r.wall0 = clock.Add(1), time.Now()
 						_, err = wd.w.FundTransaction(&txn, amount, op.U)
-						r.fundEnd = clock.Add(1)
+						r.fundEnd, r.wall1 = clock.Add(1), time.Now()
 						r.v1 = txn
 						for _, in := range txn.SiacoinInputs {
 							r.ids = append(r.ids, in.ParentID)
@@ -258,14 +264,14 @@ func runC07Conc(c C07ConcCase, cs *kit.CaseStats) error {
 					}
 				case "redist":
 					n := clampInt(op.N, 1, 12)
-					amount := base.sumS.Div64(uint64(k * (n + 1))).Mul64(uint64(clampInt(op.F, 1, 999))).Div64(1000)
+					amount := fraction(base.sumS.Div64(uint64(k*(n+1))), uint64(clampInt(op.F, 1, 999)), 1000)
 					if amount.IsZero() {
 						amount = types.Siacoins(1)
 					}
 					r := &concReq{worker: wi, kind: "redist", amount: amount, relStart: math.MaxInt64}
-					r.fundStart = clock.Add(1)
+					r.fundStart, r.wall0 = clock.Add(1), time.Now()
 					_, txns, _, err := wd.w.Redistribute(n, amount, types.ZeroCurrency)
-					r.fundEnd = clock.Add(1)
+					r.fundEnd, r.wall1 = clock.Add(1), time.Now()
 					if err != nil {
 						if !errors.Is(err, wallet.ErrNotEnoughFunds) {
 							fail(fmt.Errorf("worker %d: Redistribute(%d, %v) failed with %v", wi, n, amount, err))
@@ -436,7 +442,7 @@ func runC07Conc(c C07ConcCase, cs *kit.CaseStats) error {
 				a, b := rs[i], rs[j]
 				shared = true
 				// a was certainly outstanding during the whole of b's call
-				if a.fundEnd < b.fundStart && b.fundEnd < a.relStart {
+				if a.fundEnd < b.fundStart && b.fundEnd < a.relStart && b.wall1.Before(a.wall0.Add(wd.dur)) {
 					return fmt.Errorf("output %v was selected by worker %d (%s, call [%d,%d]) while worker %d's %s request (funded at %d, released at %d) held it", id, b.worker, b.kind, b.fundStart, b.fundEnd, a.worker, a.kind, a.fundEnd, a.relStart)
 				}
 			}
@@ -445,7 +451,21 @@ func runC07Conc(c C07ConcCase, cs *kit.CaseStats) error {
 	if shared {
 		cs.Class("outputs-reused-after-release")
 	}
-	// ---- quiescent agreement
+	// ---- quiescent agreement (with the 100 ms reservation: once every
+	// reservation has certainly run out, kept requests count as released)
+	if cfg.short() {
+		cs.Class("reservation=100ms")
+		time.Sleep(wd.dur + 5*time.Millisecond)
+		for _, r := range all {
+			if r.relStart == math.MaxInt64 {
+				r.relStart = math.MaxInt64 - 1
+			}
+		}
+		t0 = time.Now()
+		if end, err = wd.view(t0, t0); err != nil {
+			return err
+		}
+	}
 	want := map[scID]types.SiacoinElement{}
 	for id, u := range end.S {
 		want[id] = u
